@@ -44,6 +44,11 @@ type Transport struct {
 	// 256 KiB) to max(3*blockLength, ReadWindow) through the guarded knob, so
 	// that the window slides, re-aligns and regrows on small files too.
 	ReadWindow int `json:"read_window,omitempty"`
+	// MinBlock, if > 0, lowers the minimum delta block length both real ends
+	// choose (default 700) to MinBlock through the guarded knob: the block
+	// length becomes max(floor(sqrt(size)), MinBlock), so files of a few
+	// hundred bytes already consist of many blocks plus a remainder.
+	MinBlock int `json:"min_block,omitempty"`
 }
 
 // ApplyKnobs pins the process-wide hooks (checksum seed, tuning knobs) for the
@@ -51,6 +56,7 @@ type Transport struct {
 func (tr *Transport) ApplyKnobs() {
 	pinSeed(tr.ChecksumSeed())
 	setReadWindow(tr.ReadWindow)
+	setMinBlock(tr.MinBlock)
 }
 
 // ChecksumSeed returns the seed pinned for sessions of this transport.
